@@ -1,6 +1,6 @@
 (* C03 — lemmas: each implementation function (C03/Impl.v) refines the TLA+ operator (Base/Ops.v). *)
 From PGV Require Import Base.Value Base.ValueFacts Base.Ops C05.Model C05.Proofs C03.Impl.
-From Coq Require Import Lia ZifyBool.
+From Coq Require Import Lia ZifyBool Sorted Permutation.
 Open Scope Z_scope.
 
 (* The relation between what TLA+/TLC prescribe (s) and what the implementation does (r):
@@ -595,4 +595,710 @@ Proof.
     assert (int32b (Z.of_nat (List.length xs)) = true) as Hi by (unfold int32b; lia).
     unfold s_int. rewrite Hi. apply allowed_ok; [reflexivity|apply good_num; exact Hi].
   - unfold spec_cardinality. rewrite on_set_err by auto. destruct a; try reflexivity. exfalso. eapply Ha. reflexivity.
+Qed.
+
+(* ------------------------------------------------------------------ sequences *)
+(* the documented restriction: a function representation where a sequence is required *)
+Definition is_funrep (a : value) : Prop := exists kvs, a = VFun kvs.
+Definition is_tuprep (a : value) : Prop := exists xs, a = VTup xs.
+
+Lemma norm_tup a l : norm a = VTup l -> (exists xs, a = VTup xs /\ l = map norm xs) \/ is_funrep a.
+Proof.
+  destruct a; cbn; try discriminate.
+  - intros [= <-]. left. eauto.
+  - intros _. right. eexists; reflexivity.
+Qed.
+
+Lemma good_tup xs : good (VTup xs) <-> (forall x, In x xs -> good x).
+Proof.
+  unfold good. cbn. rewrite !All_In. split.
+  - intros [R B] x Hx. auto.
+  - intros H. split; intros x Hx; apply H; auto.
+Qed.
+
+Lemma funrep_typeerr (f : value -> res value) a :
+  (forall kvs, f (VFun kvs) = TypeErr) -> is_funrep a -> forall s, allowed (is_funrep a) s (f a).
+Proof.
+  intros Hf [kvs ->] s. rewrite Hf. destruct s; cbn; auto. right. split; auto. eexists; reflexivity.
+Qed.
+
+Inductive seq_arg (a : value) : Type :=
+| SA_tup xs : a = VTup xs -> seq_arg a
+| SA_fun kvs : a = VFun kvs -> seq_arg a
+| SA_other : (forall l, norm a <> VTup l) -> (forall xs, a <> VTup xs) -> seq_arg a.
+
+Definition seq_arg_of (a : value) : seq_arg a.
+Proof.
+  destruct a; try (apply SA_other; [cbn; intros; discriminate|intros; discriminate]).
+  - eapply SA_tup. reflexivity.
+  - eapply SA_fun. reflexivity.
+Defined.
+
+Definition small_len (a : value) : Prop :=
+  forall xs, a = VTup xs -> Z.of_nat (List.length xs) <= 2147483647.
+
+Theorem len_partial_lemma a : (forall s, a <> VStr s) -> small_len a ->
+  allowed (is_funrep a) (spec_len (norm a)) (ModuleLen a).
+Proof.
+  intros Hs Hl. destruct (seq_arg_of a) as [xs ->|kvs ->|Hn Ht].
+  - cbn. rewrite map_length. specialize (Hl xs eq_refl).
+    assert (int32b (Z.of_nat (List.length xs)) = true) as Hi by (unfold int32b; lia).
+    unfold s_int. rewrite Hi. apply allowed_ok; [reflexivity|apply good_num; exact Hi].
+  - apply (funrep_typeerr ModuleLen); [reflexivity|eexists; reflexivity].
+  - unfold spec_len. destruct (norm a) eqn:E; try (destruct a; try reflexivity; exfalso; eapply Ht; reflexivity).
+    + destruct a; cbn in E; try discriminate. * exfalso. eapply Hs. reflexivity.
+      * pose proof (mk_fun_kind (sort_dedup kv_cmp (map (canon_kv norm) kvs))) as H. rewrite E in H. contradiction.
+    + exfalso. eapply Hn. reflexivity.
+Qed.
+
+Theorem head_lemma a : good a -> allowed (is_funrep a) (spec_head (norm a)) (ModuleHead a).
+Proof.
+  intros G. destruct (seq_arg_of a) as [xs ->|kvs ->|Hn Ht].
+  - cbn. destruct xs as [|x xs]; cbn; [reflexivity|].
+    apply allowed_ok; [reflexivity|]. apply (proj1 (good_tup _) G). cbn; auto.
+  - apply (funrep_typeerr ModuleHead); [reflexivity|eexists; reflexivity].
+  - unfold spec_head, on_seq. destruct (norm a) eqn:E; try (destruct a; try reflexivity; exfalso; eapply Ht; reflexivity).
+    exfalso. eapply Hn. reflexivity.
+Qed.
+
+Theorem tail_lemma a : good a -> allowed (is_funrep a) (spec_tail (norm a)) (ModuleTail a).
+Proof.
+  intros G. destruct (seq_arg_of a) as [xs ->|kvs ->|Hn Ht].
+  - cbn. destruct xs as [|x xs]; cbn; [reflexivity|].
+    apply allowed_ok; [reflexivity|]. apply good_tup. intros y Hy. apply (proj1 (good_tup _) G). cbn; auto.
+  - apply (funrep_typeerr ModuleTail); [reflexivity|eexists; reflexivity].
+  - unfold spec_tail, on_seq. destruct (norm a) eqn:E; try (destruct a; try reflexivity; exfalso; eapply Ht; reflexivity).
+    exfalso. eapply Hn. reflexivity.
+Qed.
+
+Theorem append_lemma a x : good a -> good x -> allowed (is_funrep a) (spec_append (norm a) (norm x)) (ModuleAppend a x).
+Proof.
+  intros G Gx. destruct (seq_arg_of a) as [xs ->|kvs ->|Hn Ht].
+  - cbn. apply allowed_ok.
+    + cbn. rewrite map_app. reflexivity.
+    + apply good_tup. intros y Hy. apply in_app_or in Hy as [Hy|[<-|[]]]; auto. apply (proj1 (good_tup _) G); auto.
+  - apply (funrep_typeerr (fun a => ModuleAppend a x)); [reflexivity|eexists; reflexivity].
+  - unfold spec_append, on_seq. destruct (norm a) eqn:E; try (destruct a; try reflexivity; exfalso; eapply Ht; reflexivity).
+    exfalso. eapply Hn. reflexivity.
+Qed.
+
+Lemma fold_snoc {A} (r l : list A) : fold_left (fun acc e => acc ++ [e]) r l = l ++ r.
+Proof.
+  revert l. induction r as [|x r IH]; intros l; cbn; [rewrite app_nil_r; reflexivity|].
+  rewrite IH, <- app_assoc. reflexivity.
+Qed.
+
+Theorem concat_partial_lemma a b : good a -> good b ->
+  ~ (exists s t, a = VStr s /\ b = VStr t) ->
+  allowed (is_funrep a \/ is_funrep b) (spec_concat (norm a) (norm b)) (ModuleOSymbol a b).
+Proof.
+  intros Ga Gb Hstr.
+  destruct (seq_arg_of a) as [xs ->|kvs ->|Hn Ht].
+  - destruct (seq_arg_of b) as [ys ->|kvs ->|Hn' Ht'].
+    + cbn. rewrite fold_snoc. apply allowed_ok.
+      * cbn. rewrite map_app. reflexivity.
+      * apply good_tup. intros y Hy. apply in_app_or in Hy as [Hy|Hy];
+          [apply (proj1 (good_tup _) Ga)|apply (proj1 (good_tup _) Gb)]; auto.
+    + assert (ModuleOSymbol (VTup xs) (VFun kvs) = TypeErr) as -> by reflexivity.
+      destruct (spec_concat _ _); cbn; auto. right. split; auto. right. eexists; reflexivity.
+    + assert (spec_concat (norm (VTup xs)) (norm b) = SErr) as ->.
+      { cbn. destruct (norm b) eqn:E; try reflexivity. exfalso. eapply Hn'. reflexivity. }
+      cbn. destruct b; try reflexivity. exfalso. eapply Ht'. reflexivity.
+  - assert (ModuleOSymbol (VFun kvs) b = TypeErr) as -> by reflexivity.
+    destruct (spec_concat _ _); cbn; auto. right. split; auto. left. eexists; reflexivity.
+  - assert (ModuleOSymbol a b = TypeErr) as ->.
+    { destruct a; try reflexivity. exfalso. eapply Ht. reflexivity. }
+    unfold spec_concat. destruct (norm a) eqn:E; try reflexivity.
+    + destruct (norm b) eqn:E'; try reflexivity.
+      exfalso. apply Hstr.
+      assert (exists s', a = VStr s') as [s' ->].
+      { destruct a; cbn in E; try discriminate; eauto.
+        pose proof (mk_fun_kind (sort_dedup kv_cmp (map (canon_kv norm) kvs))) as H. rewrite E in H. contradiction. }
+      assert (exists t', b = VStr t') as [t' ->].
+      { destruct b; cbn in E'; try discriminate; eauto.
+        pose proof (mk_fun_kind (sort_dedup kv_cmp (map (canon_kv norm) kvs))) as H. rewrite E' in H. contradiction. }
+      eauto.
+    + exfalso. eapply Hn. reflexivity.
+Qed.
+
+Lemma firstn_map' {A B} (f : A -> B) n l : firstn n (map f l) = map f (firstn n l).
+Proof. revert l. induction n; intros [|x l]; cbn; auto. f_equal. auto. Qed.
+Lemma skipn_map' {A B} (f : A -> B) n l : skipn n (map f l) = map f (skipn n l).
+Proof. revert l. induction n; intros [|x l]; cbn; auto. Qed.
+Lemma firstn_In' {A} n (l : list A) x : In x (firstn n l) -> In x l.
+Proof. intros H. rewrite <- (firstn_skipn n l). apply in_or_app. auto. Qed.
+Lemma skipn_In' {A} n (l : list A) x : In x (skipn n l) -> In x l.
+Proof. intros H. rewrite <- (firstn_skipn n l). apply in_or_app. auto. Qed.
+
+Theorem subseq_lemma a m n : good a ->
+  allowed (is_funrep a) (spec_subseq (norm a) (norm m) (norm n)) (ModuleSubSeq a m n).
+Proof.
+  intros G. destruct (seq_arg_of a) as [xs ->|kvs ->|Hn Ht].
+  - destruct (is_num m) as [[i ->]|Hm].
+    + destruct (is_num n) as [[j ->]|Hn'].
+      * cbn. rewrite map_length. destruct (j <? i) eqn:E.
+        -- apply allowed_ok; [reflexivity|apply good_tup; intros y []].
+        -- destruct ((1 <=? i) && (j <=? Z.of_nat (List.length xs))) eqn:Eb; cbn [require bind]; [|reflexivity].
+           apply allowed_ok.
+           ++ cbn. rewrite skipn_map', firstn_map'. do 3 f_equal. lia.
+           ++ apply good_tup. intros y Hy. apply firstn_In', skipn_In' in Hy. apply (proj1 (good_tup _) G); auto.
+      * assert (spec_subseq (norm (VTup xs)) (norm (VNum i)) (norm n) = SErr) as ->.
+        { cbn. destruct (norm n) eqn:E; try reflexivity. apply (proj1 (norm_num _ _)) in E. exfalso. eapply Hn'. exact E. }
+        cbn. destruct n; try reflexivity. exfalso. eapply Hn'. reflexivity.
+    + assert (spec_subseq (norm (VTup xs)) (norm m) (norm n) = SErr) as ->.
+      { cbn. destruct (norm m) eqn:E; try reflexivity. apply (proj1 (norm_num _ _)) in E. exfalso. eapply Hm. exact E. }
+      cbn. destruct m; try reflexivity. exfalso. eapply Hm. reflexivity.
+  - apply (funrep_typeerr (fun a => ModuleSubSeq a m n)); [reflexivity|eexists; reflexivity].
+  - assert (spec_subseq (norm a) (norm m) (norm n) = SErr) as ->.
+    { unfold spec_subseq. destruct (norm a) eqn:E; try reflexivity. exfalso. eapply Hn. reflexivity. }
+    destruct a; try reflexivity. exfalso. eapply Ht. reflexivity.
+Qed.
+
+(* ------------------------------------------------------------------ = and # *)
+Lemma Equal_veqb a b : rep_ok a -> rep_ok b -> Equal a b = veqb (canon a) (canon b).
+Proof.
+  intros Ra Rb. apply bool_eq_iff. rewrite veqb_eq. apply C05.Proofs.Equal_spec_lemma; auto.
+Qed.
+
+Theorem eq_partial_lemma a b : fine a -> fine b -> comparable (norm a) (norm b) = true ->
+  allowed False (spec_eq (norm a) (norm b)) (ModuleEqualsSymbol a b).
+Proof.
+  intros (Ra & _ & Pa) (Rb & _ & Pb) Hc. unfold spec_eq. rewrite Hc.
+  rewrite !norm_plain by auto. unfold ModuleEqualsSymbol, MakeBool, s_bool. rewrite Equal_veqb by auto.
+  apply allowed_ok; [reflexivity|apply good_bool].
+Qed.
+
+Theorem neq_partial_lemma a b : fine a -> fine b -> comparable (norm a) (norm b) = true ->
+  allowed False (spec_neq (norm a) (norm b)) (ModuleNotEqualsSymbol a b).
+Proof.
+  intros (Ra & _ & Pa) (Rb & _ & Pb) Hc. unfold spec_neq. rewrite Hc.
+  rewrite !norm_plain by auto. unfold ModuleNotEqualsSymbol, MakeBool, s_bool. rewrite Equal_veqb by auto.
+  apply allowed_ok; [reflexivity|apply good_bool].
+Qed.
+
+(* the full statements, and why they fail on the code as it is (known findings) *)
+Definition eq_full_statement : Prop :=
+  forall a b, good a -> good b -> allowed False (spec_eq (norm a) (norm b)) (ModuleEqualsSymbol a b).
+
+Theorem eq_incomparable_refuted_lemma :
+  exists a b, fine a /\ fine b /\ spec_eq (norm a) (norm b) = SErr /\ ModuleEqualsSymbol a b = Ok (VBool false).
+Proof.
+  exists (VNum 1), (VStr [97%N]). repeat split; cbn; auto; unfold int32_ok; try lia.
+Qed.
+
+Theorem eq_tuple_function_refuted_lemma :
+  exists a b, good a /\ good b /\ spec_eq (norm a) (norm b) = SOk (VBool true) /\ ModuleEqualsSymbol a b = Ok (VBool false).
+Proof.
+  exists (VTup [VNum 1; VNum 2]), (VFun [(VNum 1, VNum 1); (VNum 2, VNum 2)]).
+  split; [|split; [|split; vm_compute; reflexivity]].
+  - split; cbn; unfold int32_ok; repeat split; lia.
+  - split; [apply C05.Proofs.rep_okb_spec; vm_compute; reflexivity|cbn; unfold int32_ok; repeat split; lia].
+Qed.
+
+Theorem eq_full_refuted_lemma : ~ eq_full_statement.
+Proof.
+  intros H. specialize (H (VNum 1) (VStr [97%N])).
+  assert (G1 : good (VNum 1)) by (split; cbn; auto; unfold int32_ok; lia).
+  assert (G2 : good (VStr [97%N])) by (split; cbn; auto; repeat split; reflexivity).
+  specialize (H G1 G2). cbn in H. discriminate.
+Qed.
+
+Definition len_full_statement : Prop :=
+  forall a, good a -> small_len a -> allowed (is_funrep a) (spec_len (norm a)) (ModuleLen a).
+
+Theorem len_string_refuted_lemma : ~ len_full_statement.
+Proof.
+  intros H. specialize (H (VStr [97%N; 98%N])).
+  assert (G : good (VStr [97%N; 98%N])) by (split; cbn; auto; repeat split; reflexivity).
+  specialize (H G (fun xs E => ltac:(discriminate))). cbn in H.
+  destruct H as [(v' & E & _)|[_ (kvs & E)]]; discriminate.
+Qed.
+
+Definition concat_full_statement : Prop :=
+  forall a b, good a -> good b ->
+  allowed (is_funrep a \/ is_funrep b) (spec_concat (norm a) (norm b)) (ModuleOSymbol a b).
+
+Theorem concat_string_refuted_lemma : ~ concat_full_statement.
+Proof.
+  intros H. specialize (H (VStr [97%N]) (VStr [98%N])).
+  assert (G1 : good (VStr [97%N])) by (split; cbn; auto; repeat split; reflexivity).
+  assert (G2 : good (VStr [98%N])) by (split; cbn; auto; repeat split; reflexivity).
+  specialize (H G1 G2). cbn in H.
+  destruct H as [(v' & E & _)|[_ [(kvs & E)|(kvs & E)]]]; discriminate.
+Qed.
+
+(* ------------------------------------------------------------------ a..b *)
+Lemma zrange_sorted_from x n : forall s,
+  StronglySorted (fun a b => vcmp a b = Lt) (map VNum (map (fun i => x + Z.of_nat i) (seq s n))).
+Proof.
+  induction n as [|n IH]; intros s; cbn; constructor; auto.
+  apply Forall_forall. intros v Hv. apply in_map_iff in Hv as (z & <- & Hz).
+  apply in_map_iff in Hz as (i & <- & Hi). apply in_seq in Hi. cbn. apply Z.compare_lt_iff. lia.
+Qed.
+
+Lemma zrange_bounds x y z : In z (zrange x y) -> x <= z <= y.
+Proof.
+  unfold zrange. intros H. apply in_map_iff in H as (i & <- & Hi). apply in_seq in Hi. lia.
+Qed.
+
+Theorem dotdot_lemma a b : bounded a -> bounded b ->
+  allowed False (spec_dotdot (norm a) (norm b)) (ModuleDotDotSymbol a b).
+Proof.
+  apply (binary_int_b False _ ModuleDotDotSymbol (fun x y => Ok (build_set (map MakeNumber (zrange x y)))));
+    [not_num_l|not_num_r|reflexivity|].
+  intros x y Hx Hy. change (zrange_spec x y) with (zrange x y).
+  assert (VSet (map VNum (zrange x y)) = mk_set (map VNum (zrange x y))) as ->.
+  { unfold mk_set. f_equal. symmetry. apply vsort_id. apply zrange_sorted_from. }
+  apply build_set_result.
+  - intros v Hv. apply in_map_iff in Hv as (z & <- & Hz). apply zrange_bounds in Hz.
+    repeat split; cbn; unfold int32_ok in *; try lia.
+  - intros c. rewrite map_map. unfold MakeNumber. cbn [canon]. tauto.
+Qed.
+
+(* ------------------------------------------------------------------ :>  MakeSet  MakeTuple *)
+Theorem colongt_lemma k v : good k -> good v ->
+  allowed False (spec_colongt (norm k) (norm v)) (ModuleColonGreaterThanSymbol k v).
+Proof.
+  intros [Rk Bk] [Rv Bv]. apply allowed_ok.
+  - reflexivity.
+  - split; cbn; auto. repeat split; auto. constructor; [intros []|constructor].
+Qed.
+
+Theorem maketuple_lemma l : (forall x, In x l -> good x) ->
+  allowed False (spec_maketuple (map norm l)) (Ok (MakeTuple l)).
+Proof. intros H. apply allowed_ok; [reflexivity|apply good_tup; auto]. Qed.
+
+Theorem makeset_lemma l : (forall x, In x l -> fine x) ->
+  allowed False (spec_makeset (map norm l)) (Ok (MakeSet l)).
+Proof.
+  intros H. unfold spec_makeset, MakeSet.
+  change (VSet (fold_left set_add l [])) with (build_set l).
+  apply build_set_result; auto.
+  intros c. assert (map norm l = map canon l) as -> by (apply map_ext_in; intros x Hx; apply norm_plain, H, Hx).
+  tauto.
+Qed.
+
+(* ------------------------------------------------------------------ UNION *)
+Lemma big_union_norm ss :
+  (forall s, In s ss -> fine s) ->
+  match big_union (map norm ss) with
+  | Some u => (forall s, In s ss -> exists xs, s = VSet xs) /\
+              (forall c, In c u <-> exists xs, In (VSet xs) ss /\ In c (map canon xs))
+  | None => exists s, In s ss /\ forall xs, s <> VSet xs
+  end.
+Proof.
+  induction ss as [|s ss IH]; intros Hf; cbn.
+  - split; [intros s []|]. intros c. split; [intros []|intros (xs & [] & _)].
+  - assert (Fs : fine s) by (apply Hf; cbn; auto).
+    specialize (IH (fun s' H' => Hf s' (or_intror H'))).
+    destruct (is_set s) as [[xs ->]|Hs].
+    + rewrite norm_fine_set by auto.
+      destruct (big_union (map norm ss)) as [u|].
+      * destruct IH as [I1 I2]. split.
+        -- intros s' [<-|H']; eauto.
+        -- intros c. rewrite in_app_iff, vsort_In, I2. split.
+           ++ intros [Hc|(ys & Hy & Hc)]; [exists xs|exists ys]; cbn; auto.
+           ++ intros (ys & [[= <-]|Hy] & Hc); [left; auto|right; eauto].
+      * destruct IH as (s' & Hs' & Hn). exists s'. split; cbn; auto.
+    + destruct (norm s) eqn:E; try (exists s; split; cbn; auto; fail).
+      apply norm_set in E as [xs' ->]. exfalso. eapply Hs. reflexivity.
+Qed.
+
+Lemma union_loop_spec ss : forall acc,
+  (forall s, In s ss -> fine s) -> (forall y, In y acc -> fine y) -> NoDup (map canon acc) ->
+  match union_loop ss acc with
+  | Ok res => (forall s, In s ss -> exists xs, s = VSet xs) /\
+              (forall y, In y res -> fine y) /\ NoDup (map canon res) /\
+              (forall c, In c (map canon res) <-> In c (map canon acc) \/ exists xs, In (VSet xs) ss /\ In c (map canon xs))
+  | TypeErr => exists s, In s ss /\ forall xs, s <> VSet xs
+  | _ => False
+  end.
+Proof.
+  induction ss as [|s ss IH]; intros acc Hf Ha Nd; cbn.
+  - split; [intros s []|]. split; [auto|]. split; [auto|]. intros c. split; [auto|intros [Hc|(xs & [] & _)]; auto].
+  - assert (Fs : fine s) by (apply Hf; cbn; auto).
+    destruct (is_set s) as [[xs ->]|Hs].
+    + cbn. destruct (fine_set xs Fs) as [Hx Nx].
+      destruct (fold_set_add_rep xs acc (fun y Hy => proj1 (Ha y Hy)) (fun y Hy => proj1 (Hx y Hy)) Nd) as (I & R & N & M).
+      specialize (IH (fold_left set_add xs acc) (fun s' H' => Hf s' (or_intror H'))
+                     (fun y Hy => match I y Hy with or_introl H => Ha y H | or_intror H => Hx y H end) N).
+      destruct (union_loop ss (fold_left set_add xs acc)) as [res| | |]; auto.
+      * destruct IH as (I1 & I2 & I3 & I4).
+        split; [intros s' [<-|H']; eauto|]. split; [exact I2|]. split; [exact I3|]. intros c. split.
+        -- intros Hc. apply I4 in Hc as [Hc|(ys & Hy & Hc)].
+           ++ apply M in Hc as [Hc|Hc]; auto. right. exists xs. cbn; auto.
+           ++ right. exists ys. cbn; auto.
+        -- intros [Hc|(ys & [[= <-]|Hy] & Hc)]; apply I4.
+           ++ left. apply M. auto.
+           ++ left. apply M. auto.
+           ++ right. eauto.
+      * destruct IH as (s' & Hs' & Hn). exists s'. cbn; auto.
+    + assert (AsSet s = TypeErr) as -> by (destruct s; try reflexivity; exfalso; eapply Hs; reflexivity).
+      cbn. exists s. cbn; auto.
+Qed.
+
+Theorem bigunion_lemma a : fine a -> allowed False (spec_bigunion (norm a)) (ModulePrefixUnionSymbol a).
+Proof.
+  intros Fa. destruct (is_set a) as [[ss ->]|Ha].
+  - destruct (fine_set ss Fa) as [Hs Ns].
+    rewrite norm_fine_set by auto. cbn [spec_bigunion on_set ModulePrefixUnionSymbol AsSet bind].
+    pose proof (union_loop_spec ss [] Hs (fun y H => match H with end) (NoDup_nil _)) as HL.
+    (* the spec iterates the sorted canonical members: same union *)
+    assert (HB : match big_union (sort_dedup vcmp (map canon ss)) with
+                 | Some u => (forall s, In s ss -> exists xs, s = VSet xs) /\
+                             (forall c, In c u <-> exists xs, In (VSet xs) ss /\ In c (map canon xs))
+                 | None => exists s, In s ss /\ forall xs, s <> VSet xs end).
+    { assert (G : forall l, (forall c, In c l -> In c (map canon ss)) ->
+                 match big_union l with
+                 | Some u => (forall c, In c l -> exists xs, c = VSet xs) /\
+                             (forall c, In c u <-> exists cs, In (VSet cs) l /\ In c cs)
+                 | None => exists c, In c l /\ forall xs, c <> VSet xs end).
+      { induction l as [|c l IHl]; intros Hl; cbn.
+        - split; [intros c []|]. intros c; split; [intros []|intros (cs & [] & _)].
+        - specialize (IHl (fun c' H' => Hl c' (or_intror H'))).
+          destruct c; try (eexists; split; [left; reflexivity|intros; discriminate]).
+          destruct (big_union l) as [u|].
+          + destruct IHl as [J1 J2]. split.
+            * intros c [<-|Hc]; eauto.
+            * intros c. rewrite in_app_iff, J2. split.
+              -- intros [Hc|(cs & Hcs & Hc)]; [exists xs|exists cs]; cbn; auto.
+              -- intros (cs & [[= <-]|Hcs] & Hc); [left; auto|right; eauto].
+          + destruct IHl as (c & Hc & Hn). exists c. cbn; auto. }
+      specialize (G (sort_dedup vcmp (map canon ss)) (fun c Hc => proj1 (vsort_In _ _) Hc)).
+      destruct (big_union (sort_dedup vcmp (map canon ss))) as [u|].
+      - destruct G as [G1 G2]. split.
+        + intros s Hin. assert (Hc : In (canon s) (sort_dedup vcmp (map canon ss))) by (apply vsort_In, in_map, Hin).
+          destruct (G1 _ Hc) as [xs E]. destruct s; cbn in E; try discriminate. eauto.
+        + intros c. rewrite G2. split.
+          * intros (cs & Hcs & Hc). rewrite vsort_In in Hcs. apply in_map_iff in Hcs as (s & E & Hin).
+            destruct s; cbn in E; try discriminate. injection E as <-. exists xs. split; auto.
+            rewrite vsort_In in Hc. exact Hc.
+          * intros (xs & Hin & Hc). exists (sort_dedup vcmp (map canon xs)). split.
+            -- rewrite vsort_In. apply in_map_iff. exists (VSet xs). split; auto.
+            -- rewrite vsort_In. exact Hc.
+      - destruct G as (c & Hc & Hn). rewrite vsort_In in Hc. apply in_map_iff in Hc as (s & <- & Hin).
+        exists s. split; auto. intros xs ->. eapply Hn. reflexivity. }
+    destruct (union_loop ss []) as [res| | |]; try contradiction.
+    + destruct HL as (L1 & L2 & L3 & L4).
+      destruct (big_union (sort_dedup vcmp (map canon ss))) as [u|].
+      * destruct HB as [_ B2]. cbn. apply set_result; auto.
+        intros c. rewrite L4, B2. cbn. tauto.
+      * destruct HB as (s & Hin & Hn). destruct (L1 s Hin) as [xs ->]. exfalso. eapply Hn. reflexivity.
+    + destruct HL as (s & Hin & Hn).
+      destruct (big_union (sort_dedup vcmp (map canon ss))) as [u|]; [|reflexivity].
+      destruct HB as [B1 _]. destruct (B1 s Hin) as [xs ->]. exfalso. eapply Hn. reflexivity.
+  - unfold spec_bigunion. rewrite on_set_err by auto. destruct a; try reflexivity. exfalso. eapply Ha. reflexivity.
+Qed.
+
+(* ------------------------------------------------------------------ binders: \A \E, set refinement, CHOOSE *)
+Lemma product_sproduct sets : product sets = sproduct sets.
+Proof. induction sets as [|s sets IH]; cbn; [reflexivity|]. rewrite IH. reflexivity. Qed.
+
+Lemma in_sproduct sets c : In c (sproduct sets) <-> Forall2 (fun x s => In x s) c sets.
+Proof.
+  revert c. induction sets as [|s sets IH]; intros c; cbn.
+  - split; [intros [<-|[]]; constructor|intros H; inversion H; auto].
+  - rewrite in_flat_map. split.
+    + intros (e & He & Hc). apply in_map_iff in Hc as (tl & <- & Htl). constructor; auto. apply IH; auto.
+    + intros H. inversion H as [|x s' c' sets' Hx Hr]; subst. exists x. split; auto.
+      apply in_map. apply IH; auto.
+Qed.
+
+(* the arguments of a binder: every one a fine set *)
+Definition fine_sets (vs : list value) : Prop := forall v, In v vs -> fine v.
+
+Lemma as_sets_spec vs : fine_sets vs ->
+  match as_sets vs with
+  | Ok sets => vs = map VSet sets /\ sets_of (map norm vs) = Some (map (fun s => sort_dedup vcmp (map canon s)) sets)
+  | TypeErr => sets_of (map norm vs) = None
+  | _ => False
+  end.
+Proof.
+  induction vs as [|v vs IH]; intros Hf; cbn.
+  - split; reflexivity.
+  - assert (Fv : fine v) by (apply Hf; cbn; auto).
+    specialize (IH (fun w Hw => Hf w (or_intror Hw))).
+    destruct (is_set v) as [[xs ->]|Hv].
+    + rewrite norm_fine_set by auto. cbn.
+      destruct (as_sets vs) as [sets| | |]; cbn; try contradiction.
+      * destruct IH as [-> E]. rewrite E. split; reflexivity.
+      * rewrite IH. reflexivity.
+    + assert (AsSet v = TypeErr) as -> by (destruct v; try reflexivity; exfalso; eapply Hv; reflexivity).
+      cbn. destruct (norm v) eqn:E; try reflexivity.
+      apply norm_set in E as [xs' ->]. exfalso. eapply Hv. reflexivity.
+Qed.
+
+Lemma forall2_in_canon c sets :
+  Forall2 (fun x s => In x s) c (map (fun s => sort_dedup vcmp (map canon s)) sets) <->
+  exists combo, Forall2 (fun x s => In x s) combo sets /\ map canon combo = c.
+Proof.
+  revert c. induction sets as [|s sets IH]; intros c; cbn.
+  - split.
+    + intros H. inversion H. exists []. split; [constructor|reflexivity].
+    + intros (combo & H & <-). inversion H. constructor.
+  - split.
+    + intros H. inversion H as [|x s' c' sets' Hx Hr]; subst.
+      rewrite vsort_In in Hx. apply in_map_iff in Hx as (e & <- & He).
+      apply IH in Hr as (combo & Hc & <-). exists (e :: combo). split; [constructor; auto|reflexivity].
+    + intros (combo & H & <-). inversion H as [|x s' c' sets' Hx Hr]; subst. cbn. constructor.
+      * rewrite vsort_In. apply in_map; auto.
+      * apply IH. eauto.
+Qed.
+
+Lemma forallb_same_members {A} (f : A -> bool) l1 l2 :
+  (forall x, In x l1 <-> In x l2) -> forallb f l1 = forallb f l2.
+Proof.
+  intros H. apply bool_eq_iff. rewrite !forallb_forall. split; intros G x Hx; apply G, H, Hx.
+Qed.
+
+Lemma existsb_same_members {A} (f : A -> bool) l1 l2 :
+  (forall x, In x l1 <-> In x l2) -> existsb f l1 = existsb f l2.
+Proof.
+  intros H. apply bool_eq_iff. rewrite !existsb_exists. split; intros (x & Hx & E); exists x; split; auto; apply H; auto.
+Qed.
+
+(* a Go closure that never panics on members of the sets and computes the predicate q of the denoted values *)
+Definition pred_refines (p : predT) (q : list value -> bool) (sets : list (list value)) : Prop :=
+  forall combo, Forall2 (fun x s => In x s) combo sets -> p combo = Ok (q (map canon combo)).
+
+Lemma forall_loop_total p q combos :
+  (forall c, In c combos -> p c = Ok (q (map canon c))) ->
+  forall_loop p combos = Ok (forallb (fun c => q (map canon c)) combos).
+Proof.
+  induction combos as [|c combos IH]; intros H; cbn; [reflexivity|].
+  rewrite (H c (or_introl eq_refl)). cbn. destruct (q (map canon c)); cbn; [|reflexivity].
+  apply IH. intros c' Hc'. apply H. right. exact Hc'.
+Qed.
+
+Lemma exists_loop_total p q combos :
+  (forall c, In c combos -> p c = Ok (q (map canon c))) ->
+  exists_loop p combos = Ok (existsb (fun c => q (map canon c)) combos).
+Proof.
+  induction combos as [|c combos IH]; intros H; cbn; [reflexivity|].
+  rewrite (H c (or_introl eq_refl)). cbn. destruct (q (map canon c)); cbn; [reflexivity|].
+  apply IH. intros c' Hc'. apply H. right. exact Hc'.
+Qed.
+
+Lemma combos_canon sets (f : list value -> bool) :
+  forallb f (sproduct (map (fun s => sort_dedup vcmp (map canon s)) sets)) =
+  forallb (fun c => f (map canon c)) (product sets).
+Proof.
+  change (product sets) with (sproduct sets). apply bool_eq_iff. rewrite !forallb_forall. split.
+  - intros H c Hc. apply H. apply in_sproduct, forall2_in_canon. exists c. split; auto. apply in_sproduct; auto.
+  - intros H c Hc. apply in_sproduct, forall2_in_canon in Hc as (combo & Hc & <-). apply H, in_sproduct, Hc.
+Qed.
+
+Lemma combos_canon_ex sets (f : list value -> bool) :
+  existsb f (sproduct (map (fun s => sort_dedup vcmp (map canon s)) sets)) =
+  existsb (fun c => f (map canon c)) (product sets).
+Proof.
+  change (product sets) with (sproduct sets). apply bool_eq_iff. rewrite !existsb_exists. split.
+  - intros (c & Hc & E). apply in_sproduct, forall2_in_canon in Hc as (combo & Hc & <-).
+    exists combo. split; auto. apply in_sproduct; auto.
+  - intros (c & Hc & E). exists (map canon c). split; auto.
+    apply in_sproduct, forall2_in_canon. exists c. split; auto. apply in_sproduct; auto.
+Qed.
+
+Theorem forall_lemma vs p q : fine_sets vs ->
+  (forall sets, vs = map VSet sets -> pred_refines p q sets) ->
+  allowed False (spec_forall (map norm vs) q) (QuantifiedUniversal vs p).
+Proof.
+  intros Hf Hp. unfold spec_forall, QuantifiedUniversal.
+  pose proof (as_sets_spec vs Hf) as HA. destruct (as_sets vs) as [sets| | |]; try contradiction.
+  - destruct HA as [E ->]. cbn.
+    rewrite (forall_loop_total p q).
+    + cbn. rewrite combos_canon. apply allowed_ok; [reflexivity|apply good_bool].
+    + intros c Hc. apply (Hp sets E). change (product sets) with (sproduct sets) in Hc. apply in_sproduct; auto.
+  - rewrite HA. reflexivity.
+Qed.
+
+Theorem exists_lemma vs p q : fine_sets vs ->
+  (forall sets, vs = map VSet sets -> pred_refines p q sets) ->
+  allowed False (spec_exists (map norm vs) q) (QuantifiedExistential vs p).
+Proof.
+  intros Hf Hp. unfold spec_exists, QuantifiedExistential.
+  pose proof (as_sets_spec vs Hf) as HA. destruct (as_sets vs) as [sets| | |]; try contradiction.
+  - destruct HA as [E ->]. cbn.
+    rewrite (exists_loop_total p q).
+    + cbn. rewrite combos_canon_ex. apply allowed_ok; [reflexivity|apply good_bool].
+    + intros c Hc. apply (Hp sets E). change (product sets) with (sproduct sets) in Hc. apply in_sproduct; auto.
+  - rewrite HA. reflexivity.
+Qed.
+
+(* {x \in S : p(x)} *)
+Lemma refine_loop_spec p (q : value -> bool) s : forall acc,
+  (forall x, In x s -> p [x] = Ok (q (canon x))) ->
+  (forall y, In y acc -> fine y) -> (forall y, In y s -> fine y) -> NoDup (map canon acc) ->
+  exists res, refine_loop p s acc = Ok res /\ (forall y, In y res -> fine y) /\ NoDup (map canon res) /\
+              (forall c, In c (map canon res) <-> In c (map canon acc) \/ (exists x, In x s /\ canon x = c /\ q c = true)).
+Proof.
+  induction s as [|x s IH]; intros acc Hp Ha Hs Nd; cbn.
+  - exists acc. split; [reflexivity|]. split; [auto|]. split; [auto|]. intros c. split; [auto|intros [Hc|(x & [] & _)]; auto].
+  - rewrite (Hp x (or_introl eq_refl)). cbn.
+    assert (Fx : fine x) by (apply Hs; cbn; auto).
+    destruct (q (canon x)) eqn:Eq.
+    + destruct (set_add_rep acc x (fun y Hy => proj1 (Ha y Hy)) (proj1 Fx) Nd) as (R1 & N1 & M1).
+      destruct (IH (set_add acc x)) as (res & E & F & N & M); auto.
+      * intros y Hy. apply Hp. right; auto.
+      * intros y Hy. apply set_add_In in Hy as [Hy| ->]; auto.
+      * intros y Hy. apply Hs. right; auto.
+      * exists res. split; auto. split; auto. split; auto. intros c. rewrite M, M1. split.
+        -- intros [[H| ->]|(y & Hy & E' & Q)]; auto.
+           ++ right. exists x. cbn; auto.
+           ++ right. exists y. cbn; auto.
+        -- intros [H|(y & [<-|Hy] & E' & Q)]; auto. right. exists y; auto.
+    + destruct (IH acc) as (res & E & F & N & M); auto.
+      * intros y Hy. apply Hp. right; auto.
+      * intros y Hy. apply Hs. right; auto.
+      * exists res. split; auto. split; auto. split; auto. intros c. rewrite M. split.
+        -- intros [H|(y & Hy & E' & Q)]; auto. right. exists y. cbn; auto.
+        -- intros [H|(y & [<-|Hy] & E' & Q)]; auto; [congruence|]. right. exists y; auto.
+Qed.
+
+Theorem refine_lemma a p q : fine a ->
+  (forall s, a = VSet s -> forall x, In x s -> p [x] = Ok (q (canon x))) ->
+  allowed False (spec_refine (norm a) q) (SetRefinement a p).
+Proof.
+  intros Fa Hp. destruct (is_set a) as [[s ->]|Ha].
+  - rewrite norm_fine_set by auto. cbn [spec_refine on_set SetRefinement AsSet bind].
+    destruct (fine_set s Fa) as [Hs Ns].
+    destruct (refine_loop_spec p q s [] (Hp s eq_refl) (fun y H => match H with end) Hs (NoDup_nil _))
+      as (res & -> & F & N & M).
+    cbn. apply set_result; auto.
+    intros c. rewrite M, filter_In, vsort_In. cbn [map In]. split.
+    + intros [[]|(x & Hx & <- & Q)]. split; auto. apply in_map; auto.
+    + intros [Hin Q]. apply in_map_iff in Hin as (x & <- & Hx). right. eauto.
+  - unfold spec_refine. rewrite on_set_err by auto. destruct a; try reflexivity. exfalso. eapply Ha. reflexivity.
+Qed.
+
+(* CHOOSE x \in S : p(x): some member satisfying p; a TLA+ type error when there is none *)
+Theorem choose_lemma a p q : fine a ->
+  (forall s, a = VSet s -> forall x, In x s -> p [x] = Ok (q (canon x))) ->
+  match Choose a p with
+  | Ok r => exists s, a = VSet s /\ In r s /\ choose_ok (norm a) q (norm r) /\ good r
+  | TypeErr => choose_err (norm a) q
+  | _ => False
+  end.
+Proof.
+  intros Fa Hp. destruct (is_set a) as [[s ->]|Ha].
+  - rewrite norm_fine_set by auto. cbn [Choose AsSet bind choose_ok choose_err].
+    destruct (fine_set s Fa) as [Hs _]. specialize (Hp s eq_refl).
+    assert (G : forall l, (forall x, In x l -> In x s) ->
+              match choose_loop p l with
+              | Ok r => In r l /\ q (canon r) = true
+              | TypeErr => forall x, In x l -> q (canon x) = false
+              | _ => False end).
+    { induction l as [|x l IH]; intros Hl; cbn; [intros x []|].
+      rewrite (Hp x (Hl x (or_introl eq_refl))). cbn. destruct (q (canon x)) eqn:E.
+      - split; auto.
+      - specialize (IH (fun y Hy => Hl y (or_intror Hy))). destruct (choose_loop p l); auto.
+        + destruct IH. split; auto.
+        + intros y [<-|Hy]; auto. }
+    specialize (G s (fun x H => H)). destruct (choose_loop p s) as [r| | |]; auto.
+    + destruct G as [Hr Q]. exists s. split; auto. split; auto.
+      rewrite (norm_plain r) by apply (Hs r Hr). split; [split; auto|apply fine_good, Hs, Hr].
+      rewrite vsort_In. apply in_map; auto.
+    + rewrite forallb_forall. intros c Hc. rewrite vsort_In in Hc. apply in_map_iff in Hc as (x & <- & Hx).
+      rewrite (G x Hx). reflexivity.
+  - assert (Choose a p = TypeErr) as ->.
+    { unfold Choose. destruct a; try reflexivity. exfalso. eapply Ha. reflexivity. }
+    unfold choose_err. destruct (norm a) eqn:E; auto.
+    apply norm_set in E as [xs' ->]. exfalso. eapply Ha. reflexivity.
+Qed.
+
+(* ------------------------------------------------------------------ SUBSET *)
+Lemma filter_in_powerset (f : value -> bool) s : In (filter f s) (powerset s).
+Proof.
+  induction s as [|x s IH]; cbn; [auto|].
+  apply in_or_app. destruct (f x); [right; apply in_map; auto|left; auto].
+Qed.
+
+Lemma powerset_incl s p : In p (powerset s) -> incl p s.
+Proof.
+  revert p. induction s as [|x s IH]; cbn; intros p Hp.
+  - destruct Hp as [<-|[]]. intros y [].
+  - apply in_app_or in Hp as [Hp|Hp].
+    + intros y Hy. right. apply (IH p Hp y Hy).
+    + apply in_map_iff in Hp as (q & <- & Hq). intros y [<-|Hy]; [left; auto|right; apply (IH q Hq y Hy)].
+Qed.
+
+Definition subs_step (subs : list (list value)) (e : value) : list (list value) :=
+  subs ++ map (fun sub => set_add sub e) subs.
+
+Definition sub_ok (sub : list value) : Prop := (forall y, In y sub -> fine y) /\ NoDup (map canon sub).
+
+Lemma subs_fold_ok s : forall subs,
+  (forall y, In y s -> fine y) -> (forall sub, In sub subs -> sub_ok sub) ->
+  (forall sub, In sub (fold_left subs_step s subs) -> sub_ok sub) /\
+  (forall sub, In sub (fold_left subs_step s subs) ->
+     exists sub0, In sub0 subs /\ forall c, In c (map canon sub) -> In c (map canon sub0) \/ In c (map canon s)) /\
+  (forall sub0 T, In sub0 subs -> In T (powerset s) ->
+     exists sub, In sub (fold_left subs_step s subs) /\
+                 forall c, In c (map canon sub) <-> In c (map canon sub0) \/ In c (map canon T)).
+Proof.
+  induction s as [|e s IH]; intros subs Hs Hsubs; cbn [fold_left].
+  - split; [auto|]. split.
+    + intros sub Hsub. exists sub. auto.
+    + intros sub0 T H0 [<-|[]]. exists sub0. split; auto. intros c. cbn. tauto.
+  - assert (Fe : fine e) by (apply Hs; cbn; auto).
+    assert (Hstep : forall sub, In sub (subs_step subs e) -> sub_ok sub).
+    { intros sub Hin. apply in_app_or in Hin as [Hin|Hin]; auto.
+      apply in_map_iff in Hin as (sub1 & <- & H1). destruct (Hsubs sub1 H1) as [F1 N1].
+      destruct (set_add_rep sub1 e (fun y Hy => proj1 (F1 y Hy)) (proj1 Fe) N1) as (R & N & M).
+      split; auto. intros y Hy. apply set_add_In in Hy as [Hy| ->]; auto. }
+    destruct (IH (subs_step subs e) (fun y Hy => Hs y (or_intror Hy)) Hstep) as (I1 & I2 & I3).
+    split; [exact I1|]. split.
+    + intros sub Hsub. destruct (I2 sub Hsub) as (sub1 & H1 & Hc).
+      apply in_app_or in H1 as [H1|H1].
+      * exists sub1. split; auto. intros c Hin. destruct (Hc c Hin); auto. right. cbn. auto.
+      * apply in_map_iff in H1 as (sub0 & <- & H0). exists sub0. split; auto.
+        destruct (Hsubs sub0 H0) as [F0 N0].
+        destruct (set_add_rep sub0 e (fun y Hy => proj1 (F0 y Hy)) (proj1 Fe) N0) as (_ & _ & M).
+        intros c Hin. destruct (Hc c Hin) as [Hin'|Hin']; [|right; cbn; auto].
+        apply M in Hin' as [?| ->]; auto. right. cbn. auto.
+    + intros sub0 T H0 HT. cbn [powerset] in HT. apply in_app_or in HT as [HT|HT].
+      * assert (Hin0 : In sub0 (subs_step subs e)) by (apply in_or_app; auto).
+        destruct (I3 sub0 T Hin0 HT) as (sub & Hsub & Hc). exists sub. split; auto.
+      * apply in_map_iff in HT as (T' & <- & HT').
+        destruct (Hsubs sub0 H0) as [F0 N0].
+        destruct (set_add_rep sub0 e (fun y Hy => proj1 (F0 y Hy)) (proj1 Fe) N0) as (_ & _ & M).
+        assert (Hin1 : In (set_add sub0 e) (subs_step subs e)).
+        { apply in_or_app. right. apply in_map_iff. exists sub0. auto. }
+        destruct (I3 (set_add sub0 e) T' Hin1 HT') as (sub & Hsub & Hc).
+        exists sub. split; auto. intros c. rewrite Hc, M. cbn. tauto.
+Qed.
+
+Lemma canon_fine_set sub : sub_ok sub -> fine (VSet sub) /\ canon (VSet sub) = mk_set (map canon sub).
+Proof. intros [F N]. split; [apply fine_set_intro; auto|reflexivity]. Qed.
+
+Theorem subset_lemma a : fine a -> allowed False (spec_subset (norm a)) (ModulePrefixSubsetSymbol a).
+Proof.
+  intros Fa. destruct (is_set a) as [[s ->]|Ha].
+  - rewrite norm_fine_set by auto. cbn [spec_subset on_set ModulePrefixSubsetSymbol AsSet bind].
+    destruct (fine_set s Fa) as [Hs Ns].
+    change (subsets_of s) with (fold_left subs_step s [[]]).
+    destruct (subs_fold_ok s [[]] Hs) as (I1 & I2 & I3).
+    { intros sub [<-|[]]. split; [intros y []|constructor]. }
+    apply build_set_result.
+    + intros y Hy. apply in_map_iff in Hy as (sub & <- & Hsub). apply canon_fine_set, I1, Hsub.
+    + intros c. rewrite map_map. split.
+      * intros Hc. apply in_map_iff in Hc as (sub & <- & Hsub).
+        destruct (I2 sub Hsub) as (sub0 & [<-|[]] & Hc).
+        apply in_map_iff. exists (filter (fun x => mem x (map canon sub)) (sort_dedup vcmp (map canon s))).
+        split; [|apply filter_in_powerset].
+        change (canon (VSet sub)) with (mk_set (map canon sub)). unfold mk_set. f_equal. apply vsort_ext.
+        intros x. rewrite filter_In, vsort_In, mem_In. split; [tauto|]. intros Hx. split; auto.
+        destruct (Hc x Hx) as [[]|]; auto.
+      * intros Hc. apply in_map_iff in Hc as (p & <- & Hp).
+        set (T := filter (fun x => mem (canon x) p) s).
+        destruct (I3 [] T (or_introl eq_refl) (filter_in_powerset _ s)) as (sub & Hsub & Hm).
+        apply in_map_iff. exists sub. split; auto.
+        change (canon (VSet sub)) with (mk_set (map canon sub)). unfold mk_set. f_equal. apply vsort_ext.
+        intros x. rewrite Hm. cbn [map In]. unfold T. split.
+        -- intros [[]|Hx]. apply in_map_iff in Hx as (y & <- & Hy). apply filter_In in Hy as [_ Hy].
+           apply mem_In in Hy. exact Hy.
+        -- intros Hx. right. pose proof (powerset_incl _ _ Hp x Hx) as Hin. rewrite vsort_In in Hin.
+           apply in_map_iff in Hin as (y & <- & Hy). apply in_map. apply filter_In. split; auto.
+           apply mem_In. exact Hx.
+  - unfold spec_subset. rewrite on_set_err by auto. destruct a; try reflexivity. exfalso. eapply Ha. reflexivity.
 Qed.
